@@ -23,7 +23,8 @@ def gen_spec(ch: Choices, depth: int = 0) -> dict:
     if k == 3:
         return {"t": "bool", "v": bool(ch.choice(2, "bool"))}
     if k == 4:
-        return {"t": "float", "v": [0.5, -1.25, 3.0][ch.choice(3, "float")]}
+        # (several floats equal an int of the generated range: 3 == 3.0, 0 == 0.0 == -0.0)
+        return {"t": "float", "v": [0.5, -1.25, 3.0, 0.0, -0.0, 1.0][ch.choice(6, "float")]}
     n = ch.choice(4, "len")
     if k == 5:
         return {"t": "list", "v": [gen_spec(ch, depth + 1) for _ in range(n)]}
@@ -75,7 +76,8 @@ class C16(Check):
     RULE = (
         "batches of generated values (scalars, strings, nested list/tuple/dict/set/frozenset, "
         "dataclass, NamedTuple) are rebuilt from a spec in 3 fresh interpreter processes, each with "
-        "its own PYTHONHASHSEED and its own insertion order for set / dict elements, and hashed "
+        "its own PYTHONHASHSEED, its own insertion order for set / dict elements and its own order "
+        "of hashing the batch (numerically equal values of different types included), and hashed "
         "with TypeRegistry.get_hash, with the hash the backend records the value under, and with "
         "hash_args_eval of calls taking the value by position, in variadic positions and by "
         "keyword; all nodes must agree on every value; a case is one value; "
